@@ -271,3 +271,8 @@ def run(pm, ctx):
     run_decisions(pm, ctx, 'C05-RD', OWN['C05'])
     from .. import exprdrift
     exprdrift.run(pm, ctx, 'C05-RE', OWN['C05'])
+    ctx.import_rules(pm, 'C04', {'C04-R4'}, 'C05-R7',
+                     'the encoder walks the field table of the declared type (shared with C04-R4)')
+    ctx.import_rules(pm, 'C08', {'C08-R6'}, 'C05-R8',
+                     'generated attribute descriptors carry nullable/user_defined as declared '
+                     '(shared with C08-R6)')
